@@ -333,6 +333,9 @@ func init() {
 			return strings.HasPrefix(line, "pkg spec ") || strings.HasPrefix(line, "pkg specdec ")
 		},
 		FindingKey: func(line, out, clause string) string {
+			if ffIsBlobCase(line) {
+				return "blob:" + clause // known finding blob-not-functional: cases with a BLOB (0x24) column
+			}
 			f := strings.Fields(line)
 			if len(f) > 2 {
 				return f[1] + ":" + f[2] + ":" + clause
@@ -346,6 +349,9 @@ func init() {
 	register(&Prop{
 		ID: "C07", Gen: c07GenTracked, Impl: pkgImpl, Oracle: c07Oracle,
 		FindingKey: func(line, out, clause string) string {
+			if ffIsBlobCase(line) {
+				return "blob:" + clause // known finding blob-not-functional: cases with a BLOB (0x24) column
+			}
 			f := strings.Fields(line)
 			if len(f) > 2 {
 				return "token:" + f[2] + ":" + clause
